@@ -135,6 +135,11 @@ def deriveKey (c : CryptoOps) (key : Bytes) (const rights mode keyLen : Nat) : B
   (((Sb31Consts.kdfIterationsFor.find? (fun p => p.1 == keyLen)).map (·.2)).getD []).flatMap
     (fun i => cmac c key (Sb31Consts.kdfData const rights mode keyLen i))
 
+/-- `_derive_key` applied to what a call site of `KeyDerivator` passes: `Sb31Consts.kdkCall` / `blkCall` are generated by
+    EXECUTING `KeyDerivator.__init__` / `get_block_key` (CMAC key, derivation constant, access rights, mode, key length) -/
+def deriveVia (c : CryptoOps) (a : Bytes × Nat × Nat × Nat × Nat) : Bytes :=
+  deriveKey c a.1 a.2.1 a.2.2.1 a.2.2.2.1 a.2.2.2.2
+
 def lookup (t : List (Nat × Nat)) (k : Nat) : Option Nat := (t.find? (fun p => p.1 == k)).map (·.2)
 
 def hashAlgOf (hashLen : Nat) : HashAlg := if hashLen = 48 then .sha384 else .sha256
@@ -179,14 +184,14 @@ def newObj (c : CryptoOps) (cfg : Cfg) : PyRes ObjState :=
   | some keyLen =>
     if cfg.encrypted && !(Sb31Consts.kdfRights.contains cfg.rights) then .error .spsdk
     else .ok { cfg := cfg, cmds := [], keyLen := keyLen,
-               kdk := if cfg.encrypted then deriveKey c cfg.pck cfg.timestamp cfg.rights Sb31Consts.kdfModeKdk keyLen else [],
+               kdk := if cfg.encrypted then deriveVia c (Sb31Consts.kdkCall cfg.pck cfg.timestamp keyLen cfg.rights) else [],
                blockCount := 0, totalLength := Sb31Consts.initTotalLength, finalHash := zeros cfg.hashLen }
 
 def addCmd (s : ObjState) (cmd : Cmd) : ObjState := { s with cmds := s.cmds ++ [cmd] }
 
 /-- `KeyDerivator.get_block_key` -/
 def blockKey (c : CryptoOps) (s : ObjState) (n : Nat) : Bytes :=
-  deriveKey c s.kdk n s.cfg.rights Sb31Consts.kdfModeBlk s.keyLen
+  deriveVia c (Sb31Consts.blkCall s.kdk n s.keyLen s.cfg.rights)
 
 /-- payload of `_process_block`: AES-CBC with the all-zero IV (`aes_cbc_encrypt` zero-pads to 16), or plain -/
 def encPayload (c : CryptoOps) (s : ObjState) (n : Nat) (chunk : Bytes) : Bytes :=
